@@ -99,6 +99,7 @@ def _data(n, nvdim, dtype, seed):
 
 def _field(n, fam, nvdim, labels="default", dtype="float64", seed=0, dims=None, units=None, tol=None, unit=None):
     keyorder = labels.endswith("+mapping-keys-reversed")
+    axisorder = labels.endswith("+mapping-permuted-keys-in-axis-order")
     lab = LABELS[labels.split("+")[0]]
     mesh = _mesh(n, fam, dims, units, tol)
     kw = {}
@@ -107,6 +108,11 @@ def _field(n, fam, nvdim, labels="default", dtype="float64", seed=0, dims=None, 
         md = mesh.region.dims
         vm = {lab[i]: (md[i] if i < len(md) else None) for i in range(nvdim)}
         kw["vdim_mapping"] = dict(reversed(list(vm.items())))
+    if axisorder and lab is not None and nvdim > 1:
+        # components NOT stored in axis order (cyclic pairing), the dict written with its keys in axis order
+        md = list(mesh.region.dims)
+        vm = {lab[i]: (md[(i + 1) % len(md)] if i < len(md) else None) for i in range(nvdim)}
+        kw["vdim_mapping"] = dict(sorted(vm.items(), key=lambda kv: md.index(kv[1]) if kv[1] in md else 99))
     return df.Field(mesh, nvdim=nvdim, value=_data(n, nvdim, dtype, seed),
                     vdims=None if lab is None else list(lab[:nvdim]), dtype=np.dtype(dtype), unit=unit, **kw)
 
@@ -222,7 +228,7 @@ def unit_export(ctx):
     dims = ctx.choose("dims", C.DIMSETS[len(n)])
     units = ctx.choose("units", ["default", "distinct"])
     nvdim = ctx.choose("nvdim", [1, 2, 3, 4])
-    labels = ctx.choose("labels", ["default", "custom", "custom+mapping-keys-reversed"] + (["odd"] if thorough else []))
+    labels = ctx.choose("labels", ["default", "custom", "custom+mapping-keys-reversed", "custom+mapping-permuted-keys-in-axis-order"] + (["odd"] if thorough else []))
     dtype = ctx.choose("dtype", DTYPES_T if thorough else DTYPES_Q)
     tol = ctx.choose("tolerance", [None, 1e-6] if thorough else [None])
     unit = "A/m" if nvdim % 2 else None
